@@ -11,6 +11,7 @@ class C10(ParserSessionProp):
     families = FAMILIES_UNIFORM
     max_len = 5
     nbest_choices = (2, 2, 3, 4, 5, 8)
+    penalty_choices = (0.0, 0.1, 0.1, 1.0, 10.0)      # the property is stated for penalties >= 0
     fault_classes = ('none', 'none', 'inband')
     rule = ('case = one n-best response (k = 2..8) of the real parser in a simulated session, sentences short '
             'enough (<= 5 words, <= 4 admitted tags per word) for an exhaustive reference enumeration of all '
